@@ -15,6 +15,7 @@ use std::io::BufRead;
 use std::panic::catch_unwind;
 use std::panic::AssertUnwindSafe;
 
+mod live;
 mod ops;
 
 #[endpoint { method = GET, path = "/placeholder" }]
